@@ -101,6 +101,14 @@ def tlc(run, module_dir, module, cfg_text, workers=None, extra=(), env=None, tim
     return rc, out
 
 
+def err_excerpt(out, n=25):
+    ls = [x for x in out.splitlines() if not re.match(r"^\d+\. Line ", x)]
+    for i, x in enumerate(ls):
+        if "Error" in x or "error" in x:
+            return "\n".join(ls[max(0, i - 2):i + n])
+    return "\n".join(ls[-n:])
+
+
 _STATS = re.compile(r"(\d+) states generated, (\d+) distinct states found, (\d+) states left on queue")
 _DEPTH = re.compile(r"The depth of the complete state graph search is (\d+)")
 _INVV = re.compile(r"Error: Invariant (\S+) is violated")
@@ -171,7 +179,7 @@ def model_check(run, subdir, module, constants, invariants=(), properties=(), co
         res["out"] = out
         return res
     if rc != 0 or not m or viol or "Error:" in out:
-        tail = "\n".join(out.splitlines()[-40:])
+        tail = err_excerpt(out, 40)
         raise Inconclusive("model check of %s failed (rc=%s): %s\n%s" % (module, rc, viol.group(0) if viol else "", tail))
     res["generated"], res["distinct"] = int(m.group(1)), int(m.group(2))
     dm = _DEPTH.search(out)
@@ -380,7 +388,7 @@ def _validate_file(run, subdir, module, constants, path, gate=True, clauses=(), 
     if rc == 124:
         raise Inconclusive("trace validation timed out (%s)" % module)
     if not m and not inv:
-        raise Inconclusive("trace validator %s failed to run:\n%s" % (module, "\n".join(out.splitlines()[-30:])))
+        raise Inconclusive("trace validator %s failed to run:\n%s" % (module, err_excerpt(out)))
     hwm = int(m.group(1)) if m else None
     n = int(m.group(2)) if m else None
     return dict(accepted=(m is not None and hwm == n + 1 and not inv), hwm=hwm, n=n,
